@@ -13,6 +13,17 @@ def reset():
     GATE = asyncio.Event()
     STARTED.clear()
     cur = w
+    forget_deep()
+
+
+def forget_deep():
+    """`harness.pkgx.deep` is imported by nobody: whenever the code under test resolves a dotted path into it, the package
+    is imported and the sub-module is not (the harness's own look-ups leave no trace)"""
+    import sys
+    from . import pkgx
+    sys.modules.pop("harness.pkgx.deep", None)
+    if hasattr(pkgx, "deep"):
+        delattr(pkgx, "deep")
 
 
 def swap():
